@@ -29,9 +29,11 @@ def sig_of(lines, run_start, k):
             return "-"
         r = json.loads(lines[i])
         parts = [r.get("ev", "?")]
-        for f in ("cause", "hit", "ok", "stage", "found", "done", "closed", "alive", "dir", "sent"):
+        for f in ("cause", "hit", "ok", "stage", "found", "done", "closed", "alive", "dir", "sent", "new", "was"):
             if f in r:
                 parts.append("%s=%s" % (f, str(r[f]).lower()))
+        if "left" in r:
+            parts.append("left=0" if r["left"] == 0 else "left>0")
         if r.get("ev") == "Obs":
             parts = ["Obs"]
         return ",".join(parts)
@@ -78,6 +80,95 @@ def selftest(ctx, trace):
     raise ToolError("self-test: no recorded run contains an expiry, a reply and a counted reply")
 
 
+S5_IMPL = ("Begin", "Lookup", "InsertPipeEntry", "AssocAddPeer", "AssocOpen", "AssocOpenErr", "NewConnOk", "NewConnErr",
+           "RegisterOutgoing", "S5Lookup", "SendOk", "SendErr", "MetricOut", "Return", "ReadReply", "MetricIn",
+           "RegisterIncoming", "DnsDone", "DnsPeerClosed", "DnsAssocRelease", "AssocError", "ReadClose", "Tick", "Expire",
+           "ExpirePeerClosed", "ExpireAssocRelease", "TickEnd")
+S5_ENV = ("EnvDgram", "EnvReply", "EnvRelay", "EnvRefuse", "IcmpLands", "IcmpLandsBeforeSend", "EnvClose", "Adv")
+S5_WITNESS = ("WExpireLeavesSiblings", "WExpireLeavesOneSibling", "WExpireLastReleases", "WDnsLeavesSiblings",
+              "WDnsLeavesOneSibling", "WDnsLastReleases", "WSiblingUsedAfterClose", "WTwoAssociations",
+              "WErrorClosesSeveral", "WRefusedThenOk", "WReplyAfterFlowEnded")
+S5_MC = {
+    False: [("MCUdpMuxSocks.quick.cfg", S5_IMPL + S5_ENV + S5_WITNESS)],
+    True: [("MCUdpMuxSocks.thorough.cfg", S5_IMPL + S5_ENV + S5_WITNESS),
+           # one flow per client source, six operations: an association error while the other source's lives
+           ("MCUdpMuxSocks.thorough2.cfg", tuple(a for a in S5_IMPL if a not in ("AssocAddPeer", "DnsDone", "DnsPeerClosed", "DnsAssocRelease"))
+            + S5_ENV + ("WErrorOtherSourceLives", "WTwoAssociations", "WExpireLastReleases", "WRefusedThenOk"))],
+}
+S5_MUST_SEE = ("assoc_open", "assoc_refused", "assoc_add_peer", "peer_closed_sibling_left", "assoc_release", "assoc_error",
+               "s5_send_err", "expired_flows", "dns_done", "client_got", "client_dropped", "peer_got", "metric_out", "metric_in")
+
+
+def socks_selftest(ctx, trace):
+    """UdpMuxSocksTrace must reject an execution in which the shared association is released while a
+    sibling flow of the same source still lives (an AssocRelease line right after a PeerClosed that
+    left peers behind)."""
+    lines = open(trace).read().splitlines()
+    starts = [i for i, l in enumerate(lines) if '"ev":"Start"' in l] + [len(lines)]
+    for a, b in zip(starts, starts[1:]):
+        run = lines[a:b]
+        idx = [i for i, l in enumerate(run) if '"ev":"PeerClosed"' in l and '"found":true' in l and '"left":0' not in l]
+        if not idx:
+            continue
+        r = json.loads(run[idx[0]])
+        bad = run[:idx[0] + 1] + [json.dumps({"ev": "AssocRelease", "src": r["d"]}, separators=(",", ":"))] + run[idx[0] + 1:]
+        p = os.path.join(ctx.work, "selftest.socks.ndjson")
+        with open(p, "w") as f:
+            f.write("\n".join(bad) + "\n")
+        s = ctx.tlc("UdpMuxSocksTrace", "UdpMuxSocksTrace.cfg", name="selftest.socks", trace_mode=True, env={"TRACE": p},
+                    timeout=300, coverage=False)
+        m = re.search(r'^<<"UNMATCHED", (\d+),', open(s["out"], errors="replace").read(), re.M)
+        if not m or int(m.group(1)) != idx[0] + 2:
+            raise ToolError("self-test: UdpMuxSocksTrace accepted (or misplaced the rejection of) an early release of a shared association (see %s)" % s["out"])
+        ctx.tlc_runs.pop()
+        ctx.log("self-test ok: UdpMuxSocksTrace rejected the early release of a shared association (the ERROR line above is expected)")
+        return
+    raise ToolError("self-test: no recorded SOCKS5 run ends a flow while a sibling lives")
+
+
+def socks_jobs(ctx):
+    """The SOCKS5 upstream: all flows of one client source share one association (UdpMuxSocks.tla)."""
+    states = trans = 0
+    for cfg, acts in S5_MC[ctx.thorough]:
+        mc = ctx.tlc("MCUdpMuxSocks", cfg, workers=12 if ctx.thorough else 8, timeout=3000, require_actions=acts,
+                     heap="12g" if ctx.thorough else "8g")
+        ctx.spec_must_hold(mc)
+        states += mc["distinct"]
+        trans += mc["states"]
+    before = len(ctx.violations)
+    gen = ctx.tlc("MCUdpMuxSocksGen", "MCUdpMuxSocksGen.cfg", workers=1, simulate=900 if ctx.thorough else 250, depth=150,
+                  timeout=1200, coverage=False)
+    ctx.spec_must_hold(gen)
+    nrand = 4000 if ctx.thorough else 900
+    trace = os.path.join(ctx.work, "udpmux.socks.ndjson")
+    r = ctx.harness("c07", ["--upstream", "socks5", "--schedules", gen["out"], "--random", str(nrand), "--trace", trace],
+                    name="c07.socks")
+    os.remove(gen["out"])
+    if r["counters"].get("tlc_schedules", 0) == 0:
+        raise ToolError("no SOCKS5 schedules were exported by TLC")
+    runs, ok, events = ctx.trace_validate("UdpMuxSocksTrace", "UdpMuxSocksTrace.cfg", trace, name="UdpMuxSocksTrace", timeout=2400,
+                                          sigfn=lambda l, a, k: sig_of(l, a, k).replace("udpmux:", "udpmux-socks5:", 1), max_rejections=6)
+    if runs == 0:
+        raise ToolError("no SOCKS5 runs recorded")
+    if len(ctx.violations) == before:
+        missing = [k for k in S5_MUST_SEE if r["counters"].get(k, 0) == 0]
+        if missing:
+            raise ToolError("vacuous SOCKS5 executions: the real multiplexer never showed %s" % ", ".join(missing))
+        socks_selftest(ctx, trace)
+    late = r["counters"].get("socks5_replies_read_late", 0)
+    if late:
+        ctx.notes.append("socks5: %d relayed replies were not read while virtual time stood still - DatagramSource::read parks in "
+                         "recv_from() of the association it served last, so a reply on another association waits for the next "
+                         "expiry tick (delay <= T/4, no loss); accepted by the specification, reported as an observation" % late)
+    return {
+        "states": states, "transitions": trans, "recorded_traces": runs, "traces_validated": ok, "events_validated": events,
+        "tlc_generated_schedules": r["counters"].get("tlc_schedules", 0), "random_schedules": nrand,
+        "evaluations": r["evaluations"], "distinct_nontrivial": r["distinct_nontrivial"],
+        "runs_where_exchange_returned_early": r["counters"].get("runs_where_exchange_returned_early", 0),
+        "observed": {k: r["counters"].get(k, 0) for k in S5_MUST_SEE + ("socks5_replies_read_late", "ops_skipped_not_enabled")},
+    }
+
+
 def run(ctx):
     ctx.build("c07")
     states = trans = 0
@@ -106,20 +197,22 @@ def run(ctx):
         if missing:
             raise ToolError("vacuous executions: the real multiplexer never showed %s" % ", ".join(missing))
         selftest(ctx, trace)
+    socks = socks_jobs(ctx)
     s5 = ctx.harness("c07", ["--socks5"], name="c07.socks5")
     s5steps = (s5["samples"] or [{}])[0].get("socks5", [])
     if not any(st.get("step") == "socket-error-met-by-reader" and st.get("happened") for st in s5steps):
         ctx.notes.append("socks5: the ICMP error did not reach the association socket in this run; the UdpClose orientation step was not exercised")
     cov = {
         "socks5_unit_steps": [st for st in s5steps if "step" in st],
-        "states": states, "transitions": trans,
-        "traces_validated_against_impl": ok,
-        "recorded_traces": runs, "events_validated": events,
+        "socks5_upstream": socks,
+        "states": states + socks["states"], "transitions": trans + socks["transitions"],
+        "traces_validated_against_impl": ok + socks["traces_validated"],
+        "recorded_traces": runs + socks["recorded_traces"], "events_validated": events + socks["events_validated"],
         "tlc_generated_schedules": r["counters"].get("tlc_schedules", 0),
         "random_schedules": nrand,
         "runs_where_exchange_returned_early": early,
         "observed": {k: r["counters"].get(k, 0) for k in MUST_SEE + ("ops_skipped_not_enabled",)},
-        "evaluations": r["evaluations"], "distinct_nontrivial": r["distinct_nontrivial"],
+        "evaluations": r["evaluations"] + socks["evaluations"], "distinct_nontrivial": r["distinct_nontrivial"] + socks["distinct_nontrivial"],
         "samples": r["samples"][:3],
         "rule": ("each evaluation is one life of the real udp_pipe::DuplexPipe wired to the real udp_forwarder multiplexer "
                  "(door verif::udp), hand-polled under tokio's paused clock, driven through an operation history (client datagram / "
@@ -131,7 +224,11 @@ def run(ctx):
                  "UdpMux.tla with Routing/Isolation/TablesAgree/GaugeExact/BoundedSockets/ExpiryReleases/NoEarlyExpiry/DnsReleased/"
                  "FlowErrorsAreLocal/MetricsEqualDelivered true in every state; the downstream sink answers Dropped while the client is stalled "
                  "(operations Stall/Resume) and a Metric line is accepted only directly after a write the sink answered Sent. Non-trivial = the run saw an expiry, a DNS release, a socket/connect/send "
-                 "error; distinct by event-name sequence."),
+                 "error; distinct by event-name sequence. "
+                 "The same is done for the SOCKS5 upstream (Upstream::Socks5, in-process SOCKS5 server and UDP relay; four flows, three "
+                 "of them of one client source incl. the port-53 one) against UdpMuxSocks.tla, where all flows of a source share one "
+                 "association: hook lines AssocOpen/AssocAddPeer/PeerClosed(argument, found, was, left)/AssocRelease/AssocError/S5Write/"
+                 "S5Send, invariants AssocIffLive/SiblingsUndisturbed/NoEmptyAssoc/GaugeExact (one guard per association)."),
     }
     return ctx.finish("model_checking", cov, assumptions=[
         "bounded model: 3 flows per exhaustive configuration (two configurations), T = 4 ticks, <= 4 (quick) / 5 (thorough) environment operations, horizon 6 ticks, <= 2 queued datagrams",
@@ -139,6 +236,6 @@ def run(ctx):
         "the downstream sink of the harness never blocks (it answers Sent, or Dropped while the client is stalled); the downstream source is cancel-safe",
         "byte counters are observed at the pipe's update_metrics callback (the closure Tunnel passes); the mapping of that callback to the Prometheus series is C16's",
         "an ICMP port-unreachable is modelled as a pending socket error that the next send or the next read of that socket meets (Linux semantics on loopback)",
-        "SOCKS5 datagram transceiver: only the orientation contract of on_connection_closed/UdpClose is checked (unit level)",
+        "SOCKS5 upstream: the relay is in-process and plays every peer; a relayed reply may wait in an association socket until the next expiry tick (the reader parks in recv_from of the association served last) - delivery latency is not asserted; the stalled client is explored exhaustively only with the direct upstream",
         "trusted: TLC, the loopback peers and the address->name projection of the harness, the verif::udp door",
     ])
